@@ -63,8 +63,33 @@ let mat_probe r = match word r with
   | "sub" -> let (a, b) = zz r in PSub (a, b) | "eq" -> PEq
   | w -> failwith ("unknown_mat_probe_" ^ w)
 
-let handler r =
+(* ---- requests made from inside a call-back / several requests in one process: the outcome of a sub-case is what the
+   handler prints for it *)
+let entry r = match word r with
+  | "int1" -> let m = cstr (word r) in let a = num r in let b = num r in integrate_outcome fops m a b
+  | "int2" -> let m = cstr (word r) in let x1 = num r in let x2 = num r in let y1 = num r in let y2 = num r in integrate_2d_outcome fops m x1 x2 y1 y2
+  | "int3" -> let m = cstr (word r) in let x1 = num r in let x2 = num r in let y1 = num r in let y2 = num r in let z1 = num r in let z2 = num r in
+      integrate_3d_outcome fops m x1 x2 y1 y2 z1 z2
+  | "root" -> let e = parse_fexpr r in let a = num r in let b = num r in find_root_outcome fops (fun1 e) a b
+  | w -> failwith ("unknown_entry_" ^ w)
+
+let rec handler r =
+  let sub () =
+    handler r;
+    let s = Buffer.contents buf in
+    Buffer.clear buf; first := true;
+    let w = match Stdlib.String.index_opt s ' ' with Some i -> Stdlib.String.sub s 0 i | None -> s in
+    (match w with
+     | "OK" -> CbReturns | "EXIT" -> CbExits | "THROW" -> CbThrows
+     | _ -> failwith ("sub_case_" ^ s)) in
   match word r with
+  | "throw" -> put_w "THROW"
+  | "session" -> let n = integer r in
+      let gs = List.init n (fun k ->
+        if k > 0 then (match word r with ";;" -> () | w -> failwith ("session_separator_" ^ w));
+        process_outcome (sub ())) in
+      out (process_session gs)
+  | "nested" -> let f = entry r in let _ = integer r in let o = sub () in out (process_outcome (f o))
   | "vec_at" | "vec_at_c" -> let d = zi r in let i = zi r in out (guard_vec_index d i)
   | "dot" | "vec_add" | "vec_sub" | "vec_addeq" | "vec_subeq" -> let a = zi r in let b = zi r in out (guard_vec_binary a b)
   | "cross" -> let a = zi r in let b = zi r in out (guard_cross a b)
